@@ -2,8 +2,12 @@
 import functools
 import itertools
 
+import json
+import math
+import re
+
 from pymbolic import var
-from pymbolic.primitives import LogicalNot
+from pymbolic.primitives import Comparison, LogicalAnd, LogicalNot, Variable
 
 ID = "C06"
 SOURCES = ["dagrt/codegen/dag_ast.py"]
@@ -76,7 +80,9 @@ def rand_cond(rng):
         return "t"
     if r < 0.16:
         return "f"
-    c = ["p", rng.randrange(3)]
+    # flags 0..2 are plain variables; 3.. are conditions that are not variables (comparisons, a conjunction): atoms to
+    # the simplifier all the same
+    c = ["p", rng.randrange(3) if rng.random() < 0.8 else rng.randrange(3, 3 + N_ATOMS)]
     while rng.random() < 0.3:
         c = ["n", c]
     return c
@@ -142,14 +148,32 @@ def to_py(a):
     raise ValueError(a)
 
 
+def atoms():
+    a, b = var("a"), var("b")
+    return [Comparison(a, "<=", b), Comparison(a, ">", b), Comparison(a, "==", b), Comparison(a, "<", 1),
+            LogicalAnd((var("p0"), var("p1")))]
+
+
+N_ATOMS = 5
+AB_VALUES = [0.0, 1.0, math.nan]
+
+
 def cond_py(c):
     if c == "t":
         return True
     if c == "f":
         return False
     if c[0] == "p":
-        return var(f"p{c[1]}")
+        return var(f"p{c[1]}") if c[1] < 3 else atoms()[c[1] - 3]
     return LogicalNot(cond_py(c[1]))
+
+
+def _operand_js(x):
+    if isinstance(x, Variable) and x.name in ("a", "b"):
+        return x.name
+    if isinstance(x, (int, float)) and not isinstance(x, bool):
+        return x
+    raise ValueError(repr(x))
 
 
 def cond_js(c):
@@ -159,7 +183,31 @@ def cond_js(c):
         return "f"
     if isinstance(c, LogicalNot):
         return ["n", cond_js(c.child)]
-    return ["p", int(c.name[1:])]
+    if isinstance(c, Variable) and re.fullmatch(r"p\d+", c.name):
+        return ["p", int(c.name[1:])]
+    for k, at in enumerate(atoms()):
+        if type(at) is type(c) and at == c:
+            return ["p", 3 + k]
+    # a condition that was not in the input: keep what can still be evaluated
+    if isinstance(c, Comparison):
+        try:
+            return ["cmp", c.operator, _operand_js(c.left), _operand_js(c.right)]
+        except ValueError:
+            pass
+    return ["unknown", str(c)]
+
+
+def uses_atoms(*js):
+    s = json.dumps(js)
+    return '"cmp"' in s or '"unknown"' in s or re.search(r'\["p", ([3-9]|\d\d)', s) is not None
+
+
+def valuations(*js):
+    """(p0, p1, p2, a, b): all flag valuations; where conditions other than flags occur, also every (a, b) over {0, 1, NaN}"""
+    ab = list(itertools.product(AB_VALUES, repeat=2)) if uses_atoms(*js) else [(0.0, 0.0)]
+    for fl in itertools.product([False, True], repeat=3):
+        for x in ab:
+            yield tuple(fl) + x
 
 
 def to_js(a):
@@ -225,13 +273,27 @@ def impl(case):
 
 # ---- oracle: the property itself
 
+_CMP = {"<": lambda x, y: x < y, "<=": lambda x, y: x <= y, ">": lambda x, y: x > y, ">=": lambda x, y: x >= y,
+        "==": lambda x, y: x == y, "!=": lambda x, y: x != y}
+
+
 def ceval(c, v):
     if c == "t":
         return True
     if c == "f":
         return False
     if c[0] == "p":
-        return v[c[1]]
+        if c[1] < 3:
+            return v[c[1]]
+        a, b = (v[3], v[4]) if len(v) > 3 else (0.0, 0.0)
+        k = c[1] - 3
+        return [a <= b, a > b, a == b, a < 1, v[0] and v[1]][k]
+    if c[0] == "cmp":
+        a, b = (v[3], v[4]) if len(v) > 3 else (0.0, 0.0)
+        val = lambda x: {"a": a, "b": b}.get(x, x)
+        return _CMP[c[1]](val(c[2]), val(c[3]))
+    if c[0] == "unknown":
+        raise ValueError(f"a condition that is not in the input: {c[1]}")
     return not ceval(c[1], v)
 
 
@@ -259,12 +321,15 @@ def oracle(case, out):
         return {"what": f"simplify_ast raised {out.get('err') or out}", "sig": "raises"}
     if out.get("walk") == "ValueError":
         return {"what": f"the structured back ends' walker (lower_node) has no case for a node of the simplified program {out['ok']}", "sig": "walker"}
-    for v in itertools.product([False, True], repeat=3):
+    for v in valuations(case["ast"], out["ok"]):
         t0, t1 = [], []
         trace(case["ast"], v, t0)
-        trace(out["ok"], v, t1)
+        try:
+            trace(out["ok"], v, t1)
+        except ValueError as e:
+            return {"what": f"simplified program not interpretable: {e}", "sig": "malformed"}
         if t0 != t1:
-            return {"what": f"leaf trace changed under flags {list(v)}: {t0} -> {t1}", "sig": "trace"}
+            return {"what": f"leaf trace changed under (p0, p1, p2, a, b) = {list(v)}: {t0} -> {t1}", "sig": "trace"}
     return None
 
 
